@@ -180,7 +180,7 @@ CLAIMED["C18"] = dict(
     design="8 C18")
 CLAIMED["C20"] = dict(
     text="Coq (over exact rationals, axiom-free): differentiate_term returns per term zero / the term without the factor / one, successively for several "
-         "variables, with the same number and order of terms; for terms with distinct factors the derivative evaluates to the exact finite difference "
+         "variables, with the same number and order of terms; the result is non-zero exactly for pairwise distinct factors of the term, equals the term without them, and does not depend on the order of the variables; for terms with distinct factors the derivative evaluates to the exact finite difference "
          "for every environment and every step h<>0. Model = implementation on differentiated term lists; every non-zero derivative term is "
          "materialized (formula and model-spec routes) and compared with the exact finite difference of the original column.",
     note="Coq kernel + vm_compute; use_sympy=True needs sympy (not installed): out of scope",
